@@ -6,7 +6,7 @@ FUNCTIONS = ['socket.Socket._send_ping', 'async_socket.AsyncSocket._send_ping',
              'socket.Socket.receive', 'async_socket.AsyncSocket.receive',
              'socket.Socket.poll', 'async_socket.AsyncSocket.poll',
              'socket.Socket.handle_get_request', 'async_socket.AsyncSocket.handle_get_request',
-             'server.Server._handle_connect',
+             'server.Server._handle_connect', 'async_server.AsyncServer._handle_connect',
              'server.Server._service_task', 'async_server.AsyncServer._service_task']
 
 LEVEL_TEXT = ('over a ghost clock: _send_ping emits the PING exactly ping_interval after it was scheduled '
